@@ -3,7 +3,7 @@
 import json, os
 V = "/verif"
 props = [json.loads(l) for l in open(f"{V}/properties.jsonl")]
-claims = json.load(open(f"{V}/tools/claims.json"))
+claims = {f[:-5]: json.load(open(f"{V}/tools/claims.d/{f}")) for f in sorted(os.listdir(f"{V}/tools/claims.d")) if f.endswith(".json")}
 checks, na = [], []
 for p in props:
     c = claims.get(p["id"])
